@@ -10,5 +10,8 @@ import (
 
 func TestSimWorker(t *testing.T) {
 	core.GCBetween = false
+	// few goroutines, races a few scheduling points wide: uniform picks find
+	// them fastest here (measured); keep the other modes for diversity
+	core.PCTPercent, core.PCTSDPercent, core.SDPercent = 5, 5, 10
 	core.WorkerMain(t)
 }
